@@ -360,7 +360,7 @@ func (propC02) Check(k *Kernel, cov *Coverage) *Violation {
 		}
 		got := c.Seen[0].Req
 		if got == nil {
-			return &Violation{Class: "ts-handler-input-not-contract-json", Signature: sig("ts-handler-input-not-contract-json", ""),
+			return &Violation{Class: "ts-handler-input-not-contract-json", Signature: sig("ts-handler-input-not-contract-json", fieldShape(k.W, rpc, rpc.In, c.Seen[0].JSONErrField)),
 				Detail: fmt.Sprintf("op %d %s %s: the TS route passed %s to the handler: %s", c.Op.ID, c.Op.Raw.Verb, c.Op.Raw.Target, truncBytes(c.Seen[0].JSON), c.Seen[0].JSONErr)}
 		}
 		if !proto.Equal(got, want) {
